@@ -405,7 +405,7 @@ def make_tree(rng: random.Random) -> Dict[str, Any]:
         files[root + "/longname.py"] = rng.choice(LONG_NAMES)
     if rng.random() < 0.06:
         # module / package names that are unusual as file names
-        nm = rng.choice(ODD_NAMES)
+        nm = rng.choice(ODD_NAMES[:4] * 4 + ODD_NAMES)      # (the names that did abort a run: more often)
         if rng.random() < 0.7:
             files["%s/%s.py" % (root, nm)] = ODD_BODY
         else:
